@@ -1,7 +1,12 @@
 """C02 — optimisation never changes observable behaviour.
 
 Theorems (Lean, Props/C02.lean): about the model `Opt` of the two optimisation passes (constant-cast folding,
-load-after-store forwarding, with the deferred replace / replace-uses bookkeeping): see the manifest entry.
+load-after-store forwarding, with the deferred replace / replace-uses bookkeeping).  Global: `C02_opt_correct`,
+`C02_opt_correct_fail` (every run of the unoptimised program that does not run out of fuel — finished or failed — is
+reproduced by the optimised program with the same fuel: value, globals, arguments, failure), `C02_opt_complete`,
+`C02_opt_complete_fail` (conversely, for some larger fuel), for ALL programs whose functions satisfy the decidable side
+condition `optOK` (value references are used in the block that defines them, defined once, and a forwarded load reads
+the scope of the store and no aggregate).  Local facts: see the manifest entry.
 
 Tie to the code:
  * behavioural (load-bearing): every program is compiled with `optimize` off and on — same accept/reject decision — and
@@ -10,7 +15,8 @@ Tie to the code:
    host histories over several VMs, the whole-language corpus with its inputs (vectors, matrices, swizzles, structs,
    aggregates passed to calls), the NSL sources of the repository's tests (accept/reject);
  * structural: the Lean optimiser model applied to the implementation's UNOPTIMISED IR equals (canonically) the
-   implementation's OPTIMISED IR; the side conditions of the soundness theorem (`forwardOK`) hold on that IR."""
+   implementation's OPTIMISED IR; the side condition of the theorems (`optOK`) is evaluated on that IR (it must hold on
+   every generated program; on the corpus, programs with whole-aggregate assignment lie outside it and are counted)."""
 import copy
 import common, implrun, progfam, proglib, wholelang, gen_calls, gen_vec, p_c14
 
@@ -56,7 +62,7 @@ def judge_prog(run, rec):
         if rec["opt_diff"]:
             run.mismatch("optimised-ir", base, "Opt.optProgram(unoptimised IR)", str(rec["opt_diff"])[:300])
         if rec.get("fwdok") and any(not p.endswith(": ok") for p in rec["fwdok"].split(" | ")):
-            run.mismatch("theorem-hypothesis", base, "forwardOK", rec["fwdok"][:200])
+            run.mismatch("theorem-hypothesis", base, "optOK (blockLocal, forwardOK, defsDistinct)", rec["fwdok"][:200])
 
 
 def corpus_case(run, e, d):
